@@ -85,9 +85,36 @@ fn replay(env: &Env) {
     let v: serde_json::Value = serde_json::from_str(&std::fs::read_to_string(path).expect("readable replay file")).expect("JSON");
     let r = if v.get("replay").map(|x| x.is_object()).unwrap_or(false) { v["replay"].clone() } else { v.clone() };
     let layout = r["layout"].as_str().unwrap_or(PHONETIC).to_string();
-    let bits = r["opts"].as_str().unwrap_or("00000000000");
+    let bits_owned = r["opts"].as_str().unwrap_or("00000000000").to_string();
+    let bits = bits_owned.as_str();
     let opts = Opts::from_bits(bits.chars().enumerate().fold(0u32, |acc, (i, c)| if c == '1' { acc | 1 << i } else { acc }));
     if opts.bits_str() != bits { println!("(note: option bits {} re-encoded as {})", bits, opts.bits_str()); }
+    // other shapes of recorded inputs are turned into event lists: a typed text (`text`, under `opts` or under `opts_on` and `opts_off`),
+    // the keys of a synthetic layout (`keys`), a corpus script (`script`: ⌫ backspace, ␛ finish, ⏎ ¹ ² ³ commit 0–3, ⏏ keypad enter)
+    let mut r = r;
+    let to_events = |txt: &str| -> Vec<serde_json::Value> {
+        let mut v = vec![];
+        for ch in txt.chars() {
+            match ch {
+                '⌫' => v.push(json!("bs 0")), '␛' => v.push(json!("finish")), '⏏' => v.push(json!("key 3612 0 0")),
+                '⏎' => v.push(json!("commit 0")), '¹' => v.push(json!("commit 1")), '²' => v.push(json!("commit 2")), '³' => v.push(json!("commit 3")),
+                c => if let Some(k) = code_for_char(c) { v.push(json!(format!("key {} 0 0", k))); } else { v.push(json!(format!("(no key for {:?})", c))); }
+            }
+        }
+        v
+    };
+    if r.get("events").is_none() {
+        if let Some(txt) = r.get("text").and_then(|x| x.as_str()).or(r.get("keys").and_then(|x| x.as_str())).or(r.get("script").and_then(|x| x.as_str())) {
+            r["events"] = serde_json::Value::Array(to_events(txt));
+        }
+    }
+    let variants: Vec<(String, String)> = match (r.get("opts_on").and_then(|x| x.as_str()), r.get("opts_off").and_then(|x| x.as_str())) {
+        (Some(a), Some(b)) => vec![("option on".into(), a.to_string()), ("option off".into(), b.to_string())],
+        _ => vec![(String::new(), bits.to_string())],
+    };
+    for (vname, vbits) in &variants {
+    let opts = Opts::from_bits(vbits.chars().enumerate().fold(0u32, |acc, (i, c)| if c == '1' { acc | 1 << i } else { acc }));
+    if !vname.is_empty() { println!("-- {}", vname); }
     for which in ["events", "fresh_events"] {
         let evs = match r[which].as_array() { Some(a) => a.clone(), None => continue };
         println!("== {} in a new context: layout {} opts {}", which, layout, opts.bits_str());
@@ -112,6 +139,7 @@ fn replay(env: &Env) {
             println!("{:<24} {}", e, render_obs(&o, on));
         }
         t.flush();
+    }
     }
 }
 
